@@ -165,6 +165,7 @@ func (c *Conn) ReadFrom(r io.Reader) (n int64, err error) {
 			nr++
 		}
 		if nr == maxConsecutiveEmptyReads {
+			c.outputBuffer.len = bufNode.Cap()
 			return n, io.ErrNoProgress
 		}
 		bufNode.malloc += m
@@ -182,6 +183,10 @@ func (c *Conn) ReadFrom(r io.Reader) (n int64, err error) {
 			// Update buffer available length for next Malloc
 			c.outputBuffer.len = bufNode.Cap()
 		}
+	} else {
+		// the source failed: what it gave stays in the buffer, the room left in the node
+		// is what the next Malloc may use (it was the whole node when the copy began)
+		c.outputBuffer.len = bufNode.Cap()
 	}
 	return
 }
